@@ -458,7 +458,7 @@ def get_header_lines(header):
 
 first_line_re = re.compile(
     rb"(?P<method>[!#$%&'*+\-.^_`|~0-9A-Za-z]+) "
-    rb"(?P<uri>(?:[^ :?#]+://[^ ?#/]*(?:[0-9]{1,5})?)?[^ ]+)"
+    rb"(?P<uri>[^ ]+)"
     rb"(?: HTTP/(?P<version>[0-9]\.[0-9]))?"
 )
 
